@@ -56,7 +56,16 @@ func buildScript(decls []string, axioms []string, o *Obl, forCVC5 bool, slice bo
 		// Dropping hypotheses can only make the obligation harder, never unsound.
 		pcs, goal := o.PC, o.Goal
 		if !o.NoPre {
-			pcs, goal, extraDecls = preprocess(o.PC, o.Goal, mode)
+			declSorts := map[string]string{}
+			for _, d := range decls {
+				if strings.HasPrefix(d, "(declare-const ") {
+					rest := d[len("(declare-const ") : len(d)-1]
+					if i := strings.Index(rest, " "); i > 0 {
+						declSorts[rest[:i]] = rest[i+1:]
+					}
+				}
+			}
+			pcs, goal, extraDecls = preprocess(o.PC, o.Goal, mode, declSorts)
 		}
 		syms := map[string]bool{}
 		for _, t := range identRe.FindAllString(goal, -1) {
